@@ -203,3 +203,23 @@ def rule_save_order(rep, specs, rule="B2-save-order"):
                 rep.refuted(rule, fn.short, norm(c), "argument of open() contains a call", loc=fn.where(w))
         calls_before = sum(1 for st in body[:pos] for n in ast.walk(st) if isinstance(n, ast.Call))
         rep.proved(rule, fn.short, norm(c), "%d call(s) (validation, conversion, serialisation) all precede the open-for-write" % calls_before)
+
+
+MEMO_DECORATORS = ("cached_property", "lru_cache", "cache", "functools.cached_property", "functools.lru_cache", "functools.cache")
+
+
+def rule_no_memo(rep, rule="V-fresh"):
+    """Derived views (timestamps, entries, tierNames, ...) are recomputed from the current state at every access:
+    no method or property of a data class carries a memoising decorator.  Tiers and textgrids are mutable in place
+    (insertEntry, deleteEntry, addTier, ...), so a cached view goes stale after the first mutation."""
+    idx = ctx()
+    n = 0
+    for fn in idx.all_functions():
+        if fn.cls is None:
+            continue
+        n += 1
+        decos = [norm(d.func) if isinstance(d, ast.Call) else norm(d) for d in fn.node.decorator_list]
+        memo = [d for d in decos if d in MEMO_DECORATORS]
+        if memo:
+            rep.refuted(rule, fn.short, "@" + memo[0], "a memoised view of a mutable object: after insertEntry/deleteEntry/addTier the cached value no longer reflects the current entries (e.g. a reference tier's timestamps used by dejitter)", loc=fn.loc)
+    rep.check(n >= 60, rule, "data classes", "%d methods and properties inspected" % n, ok="none is memoised", bad="fewer methods than expected were found (%d)" % n)
